@@ -117,6 +117,41 @@ def query_mix(ev, N, m, lo, up, tag):
             msgs.append(f"{tag}: after the caller overwrote the array GetImage({x!r}) had returned, GetImage({x!r}) gives "
                         f"{again.tolist()} instead of {want.tolist()}")
             return msgs
+    # calls that are refused (or answered with something) because the caller got them wrong - a point with too few / too
+    # many coordinates, a NaN coordinate, a box inverted in one coordinate: afterwards the object answers as before
+    # (a version that takes the inverted box is given its box again, as a caller who notices would do)
+    import warnings as _w
+    probe_x = sorted({0.0, 1.0, 0.5 / n, (n // 3 + 0.3) / n, (n - 0.7) / n})
+    before = [ev.GetImage(x) for x in probe_x]
+    mid = lo_f + (up_f - lo_f) * 0.3
+    bad = [list(mid[:N - 1]), list(mid) + [0.3, 0.3], [float("nan")] + list(mid[1:])]
+    inv_lo, inv_up = lo_f.copy(), up_f.copy()
+    inv_lo[0], inv_up[0] = up_f[0] + 1.0, lo_f[0] - 1.0
+    for what in ("short", "long", "nan", "inverted box"):
+        with _w.catch_warnings():
+            _w.simplefilter("ignore")
+            try:
+                if what == "inverted box":
+                    ev.SetBounds(inv_lo.copy(), inv_up.copy())
+                    ev.SetBounds(lo_f.copy(), up_f.copy())
+                else:
+                    yb = bad[("short", "long", "nan").index(what)]
+                    for fn in (ev.GetInverseImage, ev.GetPreimages):
+                        try:
+                            fn(np.array(yb, dtype=np.double))
+                        except Exception:
+                            pass
+            except Exception:
+                pass
+        try:
+            after = [ev.GetImage(x) for x in probe_x]
+        except Exception as e:
+            msgs.append(f"{tag}: after a refused / malformed call ({what}) GetImage raised {type(e).__name__}: {e}")
+            return msgs
+        for x, a_, b_ in zip(probe_x, before, after):
+            if not np.array_equal(a_, b_):
+                msgs.append(f"{tag}: after a refused / malformed call ({what}) GetImage({x!r}) is {b_.tolist()}, it was {a_.tolist()}")
+                return msgs
     if N >= 2 and np.array_equal(lo_f, -up_f):
         # a box symmetric about the origin: a coordinate given as -0.0 is the same point as +0.0
         for ax in range(N):
